@@ -90,9 +90,6 @@ Definition enforced_failure (lvl : level) (sc : scenario) : bool :=
 Definition plugin_unusable (sc : scenario) : bool :=
   plugin_demanded sc && is_none (usable_caps sc).
 
-Definition crit_processed (sc : scenario) (processed : list string) : bool :=
-  forallb (fun k => mem_str k processed) (other_crit sc).
-
 (* the plugin was executed and failed, omitted a verdict it was asked for, or
    left a critical extended attribute unprocessed *)
 Definition plugin_exec_problem (lvl : level) (sc : scenario) : bool :=
@@ -133,25 +130,15 @@ Definition should_fail_full (lvl : level) (sc : scenario) : bool :=
   || plugin_exec_problem lvl sc
   || nothing_processes lvl sc.
 
-(* the implementation is stricter on one point the property is silent about:
-   an executed plugin must also list the NON-critical attributes it was handed
-   as processed *)
-Definition noncrit_unprocessed (lvl : level) (sc : scenario) : bool :=
-  match asked lvl sc with
-  | [] => false
-  | _ => match s_presp sc with PErr => false | PResp processed _ _ => negb (all_processed sc processed) end
-  end.
-
 (* every reason to fail other than a failed validation, as the implementation
    has them: the plugin demanded is unusable, was executed and failed / omitted
-   a verdict / left an attribute unprocessed, or nothing can process a critical
+   a verdict / left a critical attribute unprocessed, or nothing can process a critical
    attribute of a signature that demands no plugin *)
 Definition plugin_or_attribute_problem (lvl : level) (sc : scenario) : bool :=
   s_nonstring_crit sc
   || plugin_unusable sc
   || plugin_exec_problem lvl sc
-  || (negb (plugin_demanded sc) && nothing_processes lvl sc)
-  || noncrit_unprocessed lvl sc.
+  || (negb (plugin_demanded sc) && nothing_processes lvl sc).
 
 (* what the implementation decides (proved equal to the model's rejection) *)
 Definition should_fail_impl (lvl : level) (sc : scenario) : bool :=
@@ -233,14 +220,9 @@ Definition spec_shape (lvl : level) (sc : scenario) (o : obs) : bool :=
   (* an accepting run has executed the plugin iff there was something to ask it *)
   && (negb (accepted o) || Bool.eqb (negb (is_none (o_exec o))) (nonempty (asked lvl sc))).
 
-(* the property on what the implementation did: exact acceptance rule (where
-   only the implementation-specific strictness about non-critical attributes
-   decides, either outcome is compatible with the property) + shape *)
+(* the property on what the implementation did: exact acceptance rule + shape *)
 Definition spec_ok_obs (lvl : level) (sc : scenario) (o : obs) : bool :=
-  (if should_fail_full lvl sc then negb (accepted o)
-   else if noncrit_unprocessed lvl sc then true
-   else accepted o)
-  && spec_shape lvl sc o.
+  Bool.eqb (negb (accepted o)) (should_fail_full lvl sc) && spec_shape lvl sc o.
 
 Definition spec_ok (i : input) (o : option obs) : bool :=
   match get_level (i_level i) (i_override i), o with
